@@ -7,6 +7,9 @@
 //!   renumber cfg=<t><h><f> inputs=<l,..|-> latches=<state:next:init,..|-> gates=<out:in0:in1,..|->
 //!            outputs=.. bad=.. constraints=.. justice=<l,..;l,..|-> (empty group `e`) fairness=..
 //!   renumber deep=<chain|cycle> n=<N>     (implementation only, small native stack)
+//!   renumber cfg=<t><h><f> ni=<N> nl=<N> ord=.. num=.. pol=.. gs=<gate segments> ln=.. outputs=.. ..
+//!            [big=1]     scale case (`--opt scale`): circuit given by a generator spec, see the
+//!                        section "scale cases" below; observation = digest of the full one
 use crate::common::*;
 use flussab_aiger::aig::{
     Aig, AigStructureError, AndGate, Latch, OrderedAig, Renumber, RenumberConfig,
@@ -15,6 +18,32 @@ use std::collections::{HashMap, HashSet};
 use std::sync::atomic::{AtomicUsize, Ordering};
 
 type Cfg = (bool, bool, bool); // trim, structural_hash, const_fold
+
+/// Hasher for the oracle's tables keyed by variable numbers (none of them is ever iterated, so
+/// the hash function is unobservable; SipHash costs seconds on circuits with 2^21 variables).
+#[derive(Default)]
+struct VarHasher(u64);
+
+impl std::hash::Hasher for VarHasher {
+    fn finish(&self) -> u64 {
+        self.0
+    }
+    fn write(&mut self, bytes: &[u8]) {
+        for &b in bytes {
+            self.write_u64(b as u64);
+        }
+    }
+    fn write_u64(&mut self, x: u64) {
+        let h = (self.0.rotate_left(5) ^ x).wrapping_mul(0x9E3779B97F4A7C15);
+        self.0 = h ^ (h >> 32);
+    }
+    fn write_usize(&mut self, x: usize) {
+        self.write_u64(x as u64);
+    }
+}
+
+type VMap<V> = HashMap<usize, V, std::hash::BuildHasherDefault<VarHasher>>;
+type VSet = HashSet<usize, std::hash::BuildHasherDefault<VarHasher>>;
 
 /// An and-inverter graph with literal codes as plain numbers.
 #[derive(Clone, Default, Debug)]
@@ -320,9 +349,9 @@ enum Def {
 }
 
 /// Variable -> definition; the flag says whether some variable is defined more than once.
-fn definitions(net: &Net) -> (HashMap<usize, Def>, HashSet<usize>) {
-    let mut defs = HashMap::new();
-    let mut dups = HashSet::new();
+fn definitions(net: &Net) -> (VMap<Def>, VSet) {
+    let mut defs = VMap::default();
+    let mut dups = VSet::default();
     let mut add = |var: usize, d: Def| {
         if defs.contains_key(&var) {
             dups.insert(var);
@@ -351,14 +380,14 @@ struct Analysis {
     /// reachable gates (indices into `net.gates`), inputs before users (if acyclic)
     post: Vec<usize>,
     /// reachable variables
-    reach: HashSet<usize>,
+    reach: VSet,
 }
 
 /// Iterative three-colour depth first search over the gate definitions.
-fn analyse(net: &Net, defs: &HashMap<usize, Def>, roots: &[usize]) -> Analysis {
-    let mut an = Analysis { undefined: false, cycle: false, post: vec![], reach: HashSet::new() };
+fn analyse(net: &Net, defs: &VMap<Def>, roots: &[usize]) -> Analysis {
+    let mut an = Analysis { undefined: false, cycle: false, post: vec![], reach: VSet::default() };
     // 1 = on the stack (grey), 2 = finished (black)
-    let mut colour: HashMap<usize, u8> = HashMap::new();
+    let mut colour: VMap<u8> = VMap::default();
     let mut stack: Vec<(usize, usize, usize)> = vec![]; // (var, gate index, next input)
     for &root in roots {
         let mut pending = Some(root / 2);
@@ -406,8 +435,8 @@ fn analyse(net: &Net, defs: &HashMap<usize, Def>, roots: &[usize]) -> Analysis {
 }
 
 /// Does the gate variable `var` depend on itself?
-fn on_cycle(net: &Net, defs: &HashMap<usize, Def>, var: usize) -> bool {
-    let mut seen = HashSet::new();
+fn on_cycle(net: &Net, defs: &VMap<Def>, var: usize) -> bool {
+    let mut seen = VSet::default();
     let mut work = vec![];
     if let Some(Def::Gate(k)) = defs.get(&var) {
         work.push(net.gates[*k].1 / 2);
@@ -433,8 +462,8 @@ fn neg_mask(lit: usize) -> u64 {
 }
 
 /// Values of all reachable variables of the original graph, 64 assignments at once.
-fn eval_old(net: &Net, post: &[usize], bits: &[u64]) -> HashMap<usize, u64> {
-    let mut val: HashMap<usize, u64> = HashMap::new();
+fn eval_old(net: &Net, post: &[usize], bits: &[u64]) -> VMap<u64> {
+    let mut val: VMap<u64> = VMap::default();
     val.insert(0, 0);
     let ni = net.inputs.len();
     for (i, &l) in net.inputs.iter().enumerate() {
@@ -488,7 +517,7 @@ fn check_ok(
     line: &str,
     net: &Net,
     cfg: Cfg,
-    defs: &HashMap<usize, Def>,
+    defs: &VMap<Def>,
     an: &Analysis,
     ord: &OrderedAig<usize>,
     ren: &Renumber<usize>,
@@ -600,7 +629,7 @@ fn check_ok(
     }
 
     // ---- trim
-    let keys: HashSet<usize> = entries.iter().map(|e| e.0 / 2).collect();
+    let keys: VSet = entries.iter().map(|e| e.0 / 2).collect();
     for &(k, _) in entries {
         match defs.get(&(k / 2)) {
             None => {
@@ -1395,7 +1424,8 @@ struct KeyFn {
     k: u64,
     shift: bool,
     w: u32,
-    /// 0 xor, 1 wrapping add, 2 or
+    /// 0 xor, 1 wrapping add, 2 or; 3 / 4: no packing at all, but bit `k` of one of the two codes
+    /// is ignored (what a truncating cast or a mask does to a code)
     op: u8,
     /// false: g applied to the larger code, true: to the smaller
     on_lo: bool,
@@ -1421,6 +1451,11 @@ impl KeyFn {
         }
     }
     fn key(&self, hi: u64, lo: u64) -> u64 {
+        if self.op >= 3 {
+            let bit = 1u64 << self.k;
+            let (h, l) = if (self.op == 3) != self.on_lo { (hi, lo & !bit) } else { (hi & !bit, lo) };
+            return h.wrapping_mul(0x9E3779B97F4A7C15) ^ l;
+        }
         let (x, y) = if self.on_lo { (lo, hi) } else { (hi, lo) };
         let v = match self.op {
             0 => self.g(x) ^ y,
@@ -1479,6 +1514,11 @@ fn key_fns() -> Vec<KeyFn> {
                 }
             }
         }
+        for op in 3..=4u8 {
+            for k in 0..=24u64 {
+                v.push(KeyFn { k, shift: true, w: 64, op, on_lo });
+            }
+        }
     }
     v
 }
@@ -1499,26 +1539,86 @@ fn pick_code(rng: &mut Rng, top: u64) -> u64 {
     c.clamp(2, top)
 }
 
+/// Differences `d <= top` of the multiplied code for which `g(x + d) - g(x)` is small modulo 2^w
+/// (`|d*k mod 2^w| <= top`): the remainders of the Euclidean algorithm on (2^w, k).  For such a
+/// `d` the other code only has to move by a small amount to restore the key.
+fn small_deltas(kf: &KeyFn, top: u64) -> Vec<u64> {
+    if kf.shift {
+        return vec![];
+    }
+    let m: i128 = 1i128 << kf.w;
+    let k = (kf.k as i128) % m;
+    let (mut r0, mut r1) = (m, k);
+    let (mut d0, mut d1) = (0i128, 1i128);
+    let mut out = vec![];
+    while r1 != 0 && d1.abs() <= top as i128 {
+        if r1.abs() <= top as i128 {
+            out.push(d1.unsigned_abs() as u64);
+        }
+        let q = r0 / r1;
+        (r0, r1) = (r1, r0 - q * r1);
+        (d0, d1) = (d1, d0 - q * d1);
+    }
+    out
+}
+
 /// One attempt at two different gates (larger input first, no constants, no `x & x`, `x & !x`)
 /// with equal keys and all codes in `2..=top`.
-fn try_pair(rng: &mut Rng, kf: &KeyFn, top: u64) -> Option<GatePair> {
+fn try_pair(rng: &mut Rng, kf: &KeyFn, top: u64, deltas: &[u64]) -> Option<GatePair> {
     if top < 8 {
         return None;
     }
+    let ok = |a: u64, b: u64| a <= top && b >= 2 && a > b && a / 2 != b / 2;
+    if kf.op >= 3 {
+        let a = pick_code(rng, top).max(4);
+        let b = if rng.chance(1, 3) { pick_code(rng, a - 1) } else { rng.range(2, a - 1) };
+        let bit = 1u64 << kf.k;
+        let (a2, b2) = if (kf.op == 3) != kf.on_lo { (a, b ^ bit) } else { (a ^ bit, b) };
+        if !ok(a, b) || !ok(a2, b2) || kf.key(a, b) != kf.key(a2, b2) {
+            return None;
+        }
+        return Some(((a, b), (a2, b2)));
+    }
     // (x, y) are the roles of `KeyFn::key`: x goes through g
     let x = pick_code(rng, top);
-    let x2 = if rng.chance(3, 4) {
-        let dmax = if rng.chance(1, 2) { 1 } else { 8 };
-        let d = rng.range(1, dmax);
-        if rng.chance(1, 2) {
-            x + d
-        } else {
-            x.saturating_sub(d)
+    let bits = 64 - top.leading_zeros() as u64;
+    let x2 = match rng.below(if deltas.is_empty() { 20 } else { 32 }) {
+        20.. => {
+            let d = *rng.pick(deltas) * rng.range(1, 2);
+            if rng.chance(1, 2) {
+                x + d
+            } else {
+                x.saturating_sub(d)
+            }
         }
-    } else {
-        pick_code(rng, top)
+        0..=7 => {
+            if rng.chance(1, 2) {
+                x + 1
+            } else {
+                x - 1
+            }
+        }
+        8..=10 => {
+            let d = rng.range(2, 8);
+            if rng.chance(1, 2) {
+                x + d
+            } else {
+                x.saturating_sub(d)
+            }
+        }
+        11..=13 => x ^ (1 << rng.below(bits)),
+        14..=15 => {
+            let d = 1 << rng.below(bits);
+            if rng.chance(1, 2) {
+                x + d
+            } else {
+                x.saturating_sub(d)
+            }
+        }
+        _ => pick_code(rng, top),
     }
     .clamp(2, top);
+    let x2 = if kf.op == 2 { x } else { x2 };
     let (lo_y, hi_y) = if kf.on_lo { (x.max(x2) + 1, top) } else { (2, x.min(x2).saturating_sub(1)) };
     if lo_y > hi_y {
         return None;
@@ -1543,7 +1643,6 @@ fn try_pair(rng: &mut Rng, kf: &KeyFn, top: u64) -> Option<GatePair> {
     };
     let pair = if kf.on_lo { ((y, x), (y2, x2)) } else { ((x, y), (x2, y2)) };
     let ((a, b), (a2, b2)) = pair;
-    let ok = |a: u64, b: u64| a <= top && b >= 2 && a > b && a / 2 != b / 2;
     if !ok(a, b) || !ok(a2, b2) || (a, b) == (a2, b2) || kf.key(a, b) != kf.key(a2, b2) {
         return None;
     }
@@ -1557,18 +1656,42 @@ fn collision_pairs(rng: &mut Rng, top: u64, count: usize, fns: &[KeyFn]) -> Vec<
     if top >= 16 && !fns.is_empty() {
         let start = rng.below(fns.len() as u64) as usize;
         let mut round = 0;
+        let mut dead = vec![false; fns.len()];
         while out.len() < count && round < 6 {
             for i in 0..fns.len() {
                 if out.len() >= count {
                     break;
                 }
+                if dead[i] {
+                    continue;
+                }
                 let kf = &fns[(start + i) % fns.len()];
-                let attempts = if kf.w == 32 && top < (1 << 28) { 400 } else { 60 };
+                // `x*k op y` without wrap-around is injective for k > 2*top (xor, add); the huge
+                // multipliers wrap, but a random search will not find their coincidences
+                let attempts = if kf.w == 64 && !kf.shift && kf.op < 2 && kf.k > 2 * top {
+                    if kf.k < 1 << 40 {
+                        0
+                    } else {
+                        20
+                    }
+                } else {
+                    400
+                };
+                let mut hit = false;
+                let deltas = if attempts > 0 { small_deltas(kf, top) } else { vec![] };
                 for _ in 0..attempts {
-                    if let Some(p) = try_pair(rng, kf, top) {
+                    if let Some(p) = try_pair(rng, kf, top, &deltas) {
                         out.push(p);
+                        hit = true;
+                        if std::env::var_os("VH_C12_PAIRS").is_some() {
+                            eprintln!("c12-pair {:?} {:?}", kf, p);
+                        }
                         break;
                     }
+                }
+                dead[i] = !hit;
+                if !hit && attempts > 0 && std::env::var_os("VH_C12_STATS").is_some() {
+                    eprintln!("c12-stat no pair for {:?} top={}", kf, top);
                 }
             }
             round += 1;
@@ -1601,12 +1724,12 @@ static SCALE_IMPL_MS: AtomicUsize = AtomicUsize::new(0);
 /// `base` inputs + latches, `ng` gates and DFS depth `depth`.
 fn est_model_ms(base: usize, ng: usize, depth: usize) -> usize {
     let (b, g, d) = (base as f64, ng as f64, depth as f64);
-    (3.0e-6 * b * b + 4.0e-5 * g * g + 2.0e-5 * g * b + 1.0e-4 * d * d) as usize + 1
+    (3.0e-6 * b * b + 4.0e-5 * g * g + 2.0e-5 * g * b + 4.0e-4 * d * d) as usize + 1
 }
 
 /// Estimated milliseconds of implementation + oracle in a debug build.
 fn est_impl_ms(total: usize) -> usize {
-    total / 250 + 1
+    total / 330 + 1
 }
 
 /// Builder of a spec: counts the allocating gates so that later segments can refer to the codes
@@ -1697,11 +1820,29 @@ fn probe_block(rng: &mut Rng, sb: &mut SpecBuilder, small: bool) {
     if top < 8 {
         return;
     }
+    // the colliding pairs first: in the shapes whose bulk is inputs / latches (and for gates listed in
+    // order without merges) the codes defined so far are renumbered to themselves
+    if small {
+        let all = key_fns();
+        let sub: Vec<KeyFn> = (0..150).map(|_| *rng.pick(&all)).collect();
+        for ((a, b), (a2, b2)) in collision_pairs(rng, top as u64, 24, &sub) {
+            sb.x(a as usize, b as usize);
+            sb.x(a2 as usize, b2 as usize);
+        }
+    } else {
+        sb.k(key_fns().len(), rng.next() >> 16);
+    }
+    let bulk_top = top;
+    let top = sb.top();
     let (nwin, wmax) = if small { (2, 5) } else { (6, 20) };
     for i in 0..nwin {
         let w1 = rng.range(2, wmax) as usize;
         let w2 = rng.range(2, wmax) as usize;
-        let lo1 = if i == 0 { (top + 1).saturating_sub(w1).max(2) } else { window_at(rng, top, w1) };
+        let lo1 = match i {
+            0 => (top + 1).saturating_sub(w1).max(2),
+            1 => (bulk_top + 1).saturating_sub(w1).max(2),
+            _ => window_at(rng, top, w1),
+        };
         let lo2 = if rng.chance(1, 3) { lo1 } else { window_at(rng, top, w2) };
         sb.p(lo1, w1.min(top + 1 - lo1), lo2, w2.min(top + 1 - lo2));
         if rng.chance(1, 3) {
@@ -1722,47 +1863,78 @@ fn probe_block(rng: &mut Rng, sb: &mut SpecBuilder, small: bool) {
             }
         }
     }
-    if small {
-        let all = key_fns();
-        let sub: Vec<KeyFn> = (0..150).map(|_| *rng.pick(&all)).collect();
-        for ((a, b), (a2, b2)) in collision_pairs(rng, top as u64, 24, &sub) {
-            sb.x(a as usize, b as usize);
-            sb.x(a2 as usize, b2 as usize);
-        }
-    } else {
-        sb.k(key_fns().len(), rng.next() >> 16);
-    }
 }
 
 const DIMS: [&str; 7] = ["inputs", "latches", "gates", "depth", "fanout", "dups", "roots"];
+
+/// (dimension, size) pairs for the sizes that come from source constants.
+fn scale_jobs(sizes: &[usize], cap: u32) -> Vec<(usize, usize)> {
+    let (lo, hi) = (1u64 << 10, (1u64 << cap) + 64);
+    let mut consts: Vec<u64> = source_consts().into_iter().filter(|&c| c >= lo && c <= hi).collect();
+    consts.sort_unstable();
+    consts.dedup();
+    consts.reverse();
+    let mut jobs = vec![];
+    let mut seen: HashSet<(usize, usize)> = HashSet::new();
+    let mut rot = 0;
+    for c in consts {
+        for s in [c + 9, c + 8, c + 1, c, c - 1] {
+            if sizes.contains(&(s as usize)) {
+                for d in 0..DIMS.len() {
+                    if seen.insert((d, s as usize)) {
+                        jobs.push((d, s as usize));
+                    }
+                }
+            }
+        }
+        for s in [5 * (c + 1), 4 * c + 4, 3 * (c + 1), 2 * c + 1, 2 * c] {
+            if sizes.contains(&(s as usize)) {
+                for _ in 0..2 {
+                    let d = rot % DIMS.len();
+                    rot += 1;
+                    if seen.insert((d, s as usize)) {
+                        jobs.push((d, s as usize));
+                    }
+                }
+            }
+        }
+    }
+    jobs
+}
 
 pub fn gen_scale_case(rng: &mut Rng, thorough: bool) -> String {
     let idx = SCALE_IDX.fetch_add(1, Ordering::Relaxed);
     let cap = if thorough { 21 } else { 19 };
     let sizes = scale_sizes(10, cap);
-    let pow2ish = |s: usize| {
-        (10..=cap).any(|k| {
-            let p = 1usize << k;
-            [p - 1, p, p + 1, p + 3, p + 8, p + 9].contains(&s)
-        })
-    };
-    let from_consts: Vec<usize> = sizes.iter().copied().filter(|&s| !pow2ish(s)).collect();
     let above: Vec<usize> = sizes.iter().copied().filter(|&s| s > 1 << cap).collect();
-    let (model_budget, impl_budget, model_case_ms) = if thorough { (150_000, 400_000, 12_000) } else { (14_000, 15_000, 2_500) };
+    let (model_budget, impl_budget, model_case_ms) = if thorough { (150_000, 600_000, 12_000) } else { (14_000, 17_000, 2_500) };
 
-    // the first cases take every dimension beyond 2^cap, then sizes derived from source constants
-    // and sizes next to powers of two alternate; the dimension rotates
-    let dim = DIMS[idx % DIMS.len()];
-    let mut size = if idx < DIMS.len() {
-        *rng.pick(&above)
-    } else if idx % 2 == 1 && !from_consts.is_empty() {
-        from_consts[(idx / 2) % from_consts.len()]
+    // schedule: the first cases take every dimension beyond 2^cap; then the sizes derived from
+    // source constants (largest first; c-1 .. c+9 for every dimension, the multiples for two
+    // dimensions each); then sizes next to powers of two, dimension rotating
+    let jobs = scale_jobs(&sizes, cap);
+    // TOP cases: every dimension beyond 2^cap, then three ill-formed circuits of that size
+    // (a cycle through all gates, an undefined literal / a redefinition after all definitions)
+    const TOP: usize = 10;
+    let forced = match idx {
+        7 => "cycle",
+        8 => "undef",
+        9 => "dup",
+        _ => "",
+    };
+    let (dim, mut size) = if idx < DIMS.len() {
+        (DIMS[idx], *rng.pick(&above))
+    } else if idx < TOP {
+        (["depth", "inputs", "gates"][idx - DIMS.len()], *rng.pick(&above))
+    } else if idx - TOP < jobs.len() {
+        let (d, s) = jobs[idx - TOP];
+        (DIMS[d], s)
     } else {
-        *rng.pick(&sizes)
+        (DIMS[idx % DIMS.len()], *rng.pick(&sizes))
     };
     // stay within the implementation budget: shrink the late big cases
     let spent = SCALE_IMPL_MS.load(Ordering::Relaxed);
-    while idx >= DIMS.len() && size > 4096 && spent + est_impl_ms(2 * size) > impl_budget {
+    while idx >= TOP && size > 4096 && spent + est_impl_ms(2 * size) > impl_budget {
         size /= 4;
     }
 
@@ -1772,6 +1944,9 @@ pub fn gen_scale_case(rng: &mut Rng, thorough: bool) -> String {
     };
     if rng.chance(1, 2) {
         cfg.1 = true; // structural hashing is where the size-dependent machinery is
+    }
+    if idx < DIMS.len() {
+        cfg.1 = idx != 4;
     }
     let num = *rng.pick(&["i", "i", "i", "r", "h", "b"]);
     let pol = if rng.chance(1, 2) { 0 } else { *rng.pick(&[1usize, 2, 3, 7, 64]) };
@@ -1820,7 +1995,7 @@ pub fn gen_scale_case(rng: &mut Rng, thorough: bool) -> String {
         "depth" => {
             sb = SpecBuilder::new(1 + small_n(rng), rng.below(2) as usize);
             let b = sb.base();
-            let cyc = rng.chance(1, 8);
+            let cyc = rng.chance(1, 8) || forced == "cycle";
             if cyc {
                 // the bottom gate hangs on the top gate: a cycle through all `size` gates
                 sb.x(sb.gate(size.max(2) - 1) ^ rng.below(2) as usize, 2);
@@ -1887,8 +2062,13 @@ pub fn gen_scale_case(rng: &mut Rng, thorough: bool) -> String {
 
     // one ill-formed variant at scale now and then (the `depth-cycle` shape is one already)
     let mut defect = "none";
-    if idx >= DIMS.len() && shape != "depth-cycle" && rng.chance(1, 6) {
-        match rng.below(3) {
+    if (idx >= TOP && shape != "depth-cycle" && rng.chance(1, 6)) || forced == "undef" || forced == "dup" {
+        let which = match forced {
+            "undef" => 0,
+            "dup" => 2,
+            _ => rng.below(3),
+        };
+        match which {
             0 => {
                 defect = "undef";
                 let v = sb.sig() + 2 + rng.below(3) as usize;
